@@ -177,11 +177,12 @@ def generate(rng, prefix="", n_funcs=None, with_main=True, rich=True):
                 parts.append("%s: %s" % (m, word_literal(k[1])))
         return "%s { %s }" % (name, ", ".join(parts))
 
-    def word_literal(name):
+    def word_literal(name, named=False):
         if name.endswith("W1"):
             w0 = words[0]
-            return "%s { from: %s, to: %s }" % (name, word_literal(w0), word_literal(w0))
-        return "%s { x: %d, y: %d }" % (name, rng.randint(0, 30), rng.randint(0, 30))
+            return "%s { from: %s, to: %s }" % (name, word_literal(w0, named), word_literal(w0, named))
+        x = rng.choice(sorted(kvals)) if named and rng.random() < 0.6 else "%d" % rng.randint(0, 30)
+        return "%s { x: %s, y: %d }" % (name, x, rng.randint(0, 30))
 
     def struct_read_expr(var, name, depth=0):
         terms = []
@@ -212,11 +213,11 @@ def generate(rng, prefix="", n_funcs=None, with_main=True, rich=True):
         wname = words[0]
         cname = "%sQ0" % px
         wconsts[wname] = cname
-        P.add(Item(cname, "const", "const %s: %s = %s;\n" % (cname, wname, word_literal(wname))))
+        P.add(Item(cname, "const", "const %s: %s = %s;\n" % (cname, wname, word_literal(wname, True))))
     if words and rng.random() < 0.3:
         cname = "%sQA" % px
         warrays[cname] = words[0]
-        P.add(Item(cname, "const", "const %s: [2]%s = [%s, %s];\n" % (cname, words[0], word_literal(words[0]), word_literal(words[0]))))
+        P.add(Item(cname, "const", "const %s: [2]%s = [%s, %s];\n" % (cname, words[0], word_literal(words[0], True), word_literal(words[0], True))))
 
     # ---- functions -------------------------------------------------------
     if n_funcs is None:
@@ -550,12 +551,18 @@ LAYOUTS = [
     ["one/main.pn", "two/part.pn", "one/part.pn", "two/sub/part.pn"],
     # the same base name nested below its sibling
     ["app/main.pn", "app/plugins/config.pn", "app/config.pn", "lib/config.pn"],
+    # run from a sub-directory: files of other directories are named `../...`
+    # on the command line and in the imports (cwd "app", see CWD_OF_LAYOUT)
+    ["main.pn", "../common/util.pn", "../common/deep/m2.pn", "local/m3.pn"],
     # long paths (module names are derived from them)
     ["a_rather_long_directory_name/with_another_level/the_main_module_of_the_program.pn",
      "a_rather_long_directory_name/with_another_level/a_helper_module_with_a_long_name.pn",
      "a_rather_long_directory_name/second_helper_module_with_a_long_name.pn",
      "yet_another_quite_long_directory_name/third_helper_module.pn"],
 ]
+
+
+CWD_OF_LAYOUT = {"../common/util.pn": "app"}   # second file name -> working directory
 
 
 class Split:
@@ -680,12 +687,14 @@ def rename_ident(text, old, new):
     return "".join(parts)
 
 
-def random_split(program, rng, k=None):
+def random_split(program, rng, k=None, allow_parent=False):
     if k is None:
         k = rng.choice([2, 2, 3, 3, 4])
     names = [it.name for it in program.items]
     k = min(k, len(names))
     layout = rng.choice(LAYOUTS)
+    if not allow_parent and layout[1] in CWD_OF_LAYOUT:
+        layout = LAYOUTS[1]     # only engines that start penne in a sub-directory may use `../` names
     if k == 4 and rng.random() < 0.4:
         layout = LAYOUTS[4]     # two directories with a `util.pn` each
     elif k >= 3 and rng.random() < 0.2:
